@@ -479,6 +479,14 @@ func genHistory(c *Ctx, o histOpts) (calls []*hCall, nTasks int, nontrivial bool
 			}
 			f := genForest(c, forestOpts{maxRoots: mr, maxExtra: 3, alpha: o.alpha, distinctRoots: true, maxDepth: 3, maxFan: 3})
 			doc := canonicalDoc(f)
+			if c.Chance(1, 4) {
+				// a malformed document: the call's error must be its own, whatever else runs
+				parts := [][]byte{doc}
+				malform(c, parts, "  ")
+				doc = parts[0]
+				// partial effects of a failing massive call depend on its schedule: simple mode only
+				massive = false
+			}
 			op := genOp(c, massive)
 			h := &hCall{Kind: "mdop", Task: c.Draw(nTasks), Op: op, Doc: doc}
 			if op.Kind == "verify" {
